@@ -189,7 +189,7 @@ def currency_case(chk, rng, i):
             "syms": look, "types": {"Money": "$Money",
                                     "Quantity": "__Quantity__"}}})
         checks.append((k, cls, sym, list(known)))
-        if sym and cls != "unknown-iso-code" and rng.random() < 0.6:
+        if sym and sym not in known and rng.random() < 0.6:
             steps.append({"k": k + ".reuse",
                           "e": ["m", MONEY, "new_unit", [["s", sym]],
                                 {"minor_unit": ["i", 2]}]})
